@@ -161,8 +161,44 @@ pub fn main_solar(args: &Args) {
                     "table": q1(e.dif[(m - 1) as usize], 100.0), "model": ((sf / 1000.0) * 100.0).round() as i64}));
             }
         }
+        // (5b) the library's own table generators (monthly sums per orientation, the hours of 21 July) fed with the shipped
+        // weather file under every zone name: their rows for D3 are the embedded tables
+        let mut allzones: std::collections::HashMap<String, climate::met::MetData> = std::collections::HashMap::new();
+        for z in climate::CTE_CLIMATEZONES.iter() {
+            allzones.insert((*z).to_string(), met.clone());
+        }
+        let allz = allzones.clone();
+        if let Ok(rows) = catch(move || climate::met::met_monthly_data(&allz)) {
+            for row in rows.iter().filter(|r| r.zc == "D3") {
+                if let Some(e) = monthly.iter().find(|e| e.zone == ClimateZone::D3 && (e.beta - row.tilt).abs() < 1e-3 && (e.gamma - row.azimuth).abs() < 1e-3) {
+                    for m in 0..12usize {
+                        out.push(json!({"ev": "TableVsModel", "orient": orient_name(e.orientation), "month": m + 1, "what": "dir (met_monthly_data)",
+                            "table": q1(e.dir[m], 100.0), "model": q1(*row.dir.get(m).unwrap_or(&f32::NAN), 100.0)}));
+                        out.push(json!({"ev": "TableVsModel", "orient": orient_name(e.orientation), "month": m + 1, "what": "dif (met_monthly_data)",
+                            "table": q1(e.dif[m], 100.0), "model": q1(*row.dif.get(m).unwrap_or(&f32::NAN), 100.0)}));
+                    }
+                } else {
+                    out.push(json!({"ev": "TableVsModel", "orient": row.name, "month": 0, "what": "no table row for this surface", "table": 0, "model": 1000000}));
+                }
+            }
+        } else {
+            out.push(json!({"ev": "TableVsModel", "orient": "-", "month": 0, "what": "met_monthly_data panics", "table": 0, "model": 1000000}));
+        }
         drop(monthly);
+        let allz = allzones.clone();
+        let julyfn = catch(move || climate::met::met_july21st_radiation_data(&allz)).ok().and_then(|mut m| m.remove("D3"));
         let july = JULYRADDATA.lock().unwrap();
+        // (the embedded July table is the 1st of July; the library's generator of a July day takes the 21st: what it returns
+        //  must be the sunlit hours of that day of the weather file)
+        if let Some(gen) = julyfn.as_ref() {
+            let sunlit = met.data.iter().filter(|d| d.month == 7 && d.day == 21 && (d.rdirhor > 0.0 || d.rdifhor > 0.0)).count();
+            for r in gen {
+                let hit = met.data.iter().find(|d| d.month == r.month && d.day == r.day && (d.hour - r.hour).abs() < 0.01);
+                out.push(json!({"ev": "JulyVsMet", "hour": q1(r.hour, 10.0), "found": hit.is_some() && gen.len() == sunlit && r.month == 7 && r.day == 21, "src": "met_july21st_radiation_data",
+                    "tdir": q1(r.dir, 1.0), "tdif": q1(r.dif, 1.0), "talt": q1(r.altitude, 100.0),
+                    "mdir": hit.map_or(0, |d| q1(d.rdirhor, 1.0)), "mdif": hit.map_or(0, |d| q1(d.rdifhor, 1.0)), "malt": hit.map_or(0, |d| q1(90.0 - d.zenith, 100.0))}));
+            }
+        }
         if let Some(rows) = july.get(&ClimateZone::D3) {
             for r in rows {
                 let hit = met.data.iter().find(|d| d.month == r.month && d.day == r.day && (d.hour - r.hour).abs() < 0.01);
